@@ -410,7 +410,12 @@ def run_scene_case(ctx, sc, check_model=True):
                 detail = (f"{name} at inactive step {t} of source {src} changed the field "
                           f"(schedule {bits(exp[src])}, changed at {bits(d)})")
     # ---- whole run: detector records
-    _, arr = fdtdx.run_fdtd(arrays=a, objects=o, config=cfg, key=jax.random.PRNGKey(1), show_progress=False)
+    try:
+        _, arr = fdtdx.run_fdtd(arrays=a, objects=o, config=cfg, key=jax.random.PRNGKey(1), show_progress=False)
+    except Exception as e:  # noqa: BLE001 — every schedule of the scene is valid: the run has to go through
+        ctx.impl_property_evals += 1
+        return (f"run_fdtd raised {type(e).__name__}: {str(e)[:160]} although every schedule of the scene is valid "
+                f"(detector schedules: {[bits(oracle_on_list(dict(c, T=T, dt=dt))) for c, _ in sc['dets']]})")
     st = {k: np.asarray(v["fields"]) for k, v in arr.detector_states.items()}
     full = st["all"]
     first_on = min([t for nm in ("src_e", "src_h") for t in range(T) if exp[nm][t]] + [T])
